@@ -284,6 +284,9 @@ func (ex *Exec) contractCall(st *State, in ssa.CallInstruction, callee *ssa.Func
 	for _, e := range c.Ensures {
 		st.assume(post.evalBool(e.E))
 	}
+	for _, e := range c.Defines {
+		st.assume(post.evalBool(e.E))
+	}
 	ex.flushInv(st)
 	if pst != nil {
 		// exceptional exit of the callee observed by a deferred function
